@@ -8,6 +8,7 @@ import (
 	"errors"
 	"fmt"
 	"strings"
+	"sync"
 	"time"
 
 	openfgav1 "github.com/openfga/api/proto/openfga/v1"
@@ -30,18 +31,22 @@ const ModelID = "01HVMMBDNGZNT3SED4Z17ECXCB"
 // possible ones (else "default") and records the strategies that were offered.
 type ForcedPlanner struct {
 	Want    string
-	Offered map[string]bool
+	Offered map[string]bool // strategies the engine offered (shared across planners of one case)
 }
+
+var offeredMu sync.Mutex
 
 type forcedSelector struct{ p *ForcedPlanner }
 
 func (p *ForcedPlanner) GetPlanSelector(_ keys.Key) planner.Selector { return forcedSelector{p} }
 
 func (s forcedSelector) Select(plans map[string]*planner.PlanConfig) *planner.PlanConfig {
-	for k := range plans {
-		if s.p.Offered != nil {
+	if s.p.Offered != nil {
+		offeredMu.Lock()
+		for k := range plans {
 			s.p.Offered[k] = true
 		}
+		offeredMu.Unlock()
 	}
 	if pc, ok := plans[s.p.Want]; ok {
 		return pc
